@@ -231,8 +231,14 @@ func execute(c *fw.Ctx, ru *Run) {
 	for _, cs := range conns {
 		cs.client.Abort()
 	}
+	// one shared grace period: a reader may sit in the limiter's WaitN for up to burst/rate seconds after the abort
+	grace := time.Now().Add(2 * time.Second)
 	for _, cs := range conns {
-		cs.rec.WaitDone("sink", 10*time.Second)
+		d := time.Until(grace)
+		if d < 0 {
+			d = 0
+		}
+		cs.rec.WaitDone("sink", d)
 	}
 	report := func(kind, what string, extra any) {
 		c.Violation("C17 "+kind, what, map[string]any{"run": ru, "detail": extra})
